@@ -11,6 +11,7 @@ package dastard
 
 import (
 	"bytes"
+	"encoding/binary"
 	"fmt"
 	"net"
 	"os"
@@ -275,6 +276,35 @@ func (e *c10Env) udpSender(stop chan struct{}, port, first int) {
 	}
 }
 
+// roachSender plays a ROACH board: datagrams of header + 20 samples x Nchan 16-bit words, every 2 ms.
+func (e *c10Env) roachSender(stop chan struct{}, port int) {
+	conn, err := net.Dial("udp", fmt.Sprintf("127.0.0.1:%d", port))
+	if err != nil {
+		return
+	}
+	defer conn.Close()
+	const nsamp = 20
+	n := uint64(0)
+	t := time.NewTicker(2 * time.Millisecond)
+	defer t.Stop()
+	for {
+		select {
+		case <-stop:
+			return
+		case <-t.C:
+			buf := new(bytes.Buffer)
+			binary.Write(buf, binary.BigEndian, packetHeader{Nchan: uint16(e.c.Nchan), Nsamp: nsamp, Flags: 1, Sampnum: n})
+			d := make([]uint16, nsamp*e.c.Nchan)
+			for i := range d {
+				d[i] = uint16(int(n) + 3*i)
+			}
+			binary.Write(buf, binary.BigEndian, d)
+			conn.Write(buf.Bytes())
+			n += nsamp
+		}
+	}
+}
+
 // startSenders makes the hardware send data from now on (and frees the port the harness was holding).
 func (e *c10Env) startSenders() {
 	if e.blocker != nil {
@@ -282,6 +312,11 @@ func (e *c10Env) startSenders() {
 		e.blocker = nil
 	}
 	e.udpStop = make(chan struct{})
+	if e.c.Source == "roach" {
+		go e.roachSender(e.udpStop, e.udpPort)
+		time.Sleep(20 * time.Millisecond)
+		return
+	}
 	go e.udpSender(e.udpStop, e.udpPort, 0)
 	if e.udpPort2 != 0 {
 		go e.udpSender(e.udpStop, e.udpPort2, 100)
@@ -357,6 +392,30 @@ func c10Run(c c10Case) (v vVerdict) {
 			return ls.Configure(&LanceroSourceConfig{FiberMask: 0xffff, ActiveCards: []int{0}, CardDelay: []int{1}, FirstRow: 1})
 		}
 		inner, e.any = ls, &ls.AnySource
+	case "roach":
+		rs, err := NewRoachSource()
+		if err != nil {
+			return vFailf("harness", "%v", err)
+		}
+		shard, _ := strconv.Atoi(os.Getenv("VERIF_SHARD"))
+		reconfigure = func(n int) error {
+			// Configure binds the port itself (closing the previous device first): probe only while nothing is bound
+			if e.udpPort == 0 {
+				for try := 0; try < 40 && e.udpPort == 0; try++ {
+					cand := 25000 + (shard%64)*100 + (c10Counter*3+try)%100
+					if l, err := net.ListenPacket("udp", fmt.Sprintf("127.0.0.1:%d", cand)); err == nil {
+						l.Close()
+						e.udpPort = cand
+					}
+				}
+				if e.udpPort == 0 {
+					return fmt.Errorf("harness: no free UDP port")
+				}
+			}
+			return rs.Configure(&RoachSourceConfig{HostPort: []string{fmt.Sprintf("127.0.0.1:%d", e.udpPort)}, Rates: []float64{10000}})
+		}
+		defer rs.Delete()
+		inner, e.any = rs, &rs.AnySource
 	case "udp", "udp2":
 		as, err := NewAbacoSource()
 		if err != nil {
@@ -451,10 +510,10 @@ func c10Run(c c10Case) (v vVerdict) {
 			inject = ""
 		}
 		failNext = ""
-		if (c.Source == "abaco" || c.Source == "udp" || c.Source == "udp2") && st0 == Inactive {
+		if (c.Source == "abaco" || c.Source == "udp" || c.Source == "udp2" || c.Source == "roach") && st0 == Inactive {
 			reconfigure(nchan) // a client configures, then starts (a finished run leaves no packet producers behind)
 		}
-		udpSilent := (c.Source == "udp" || c.Source == "udp2") && e.udpStop == nil
+		udpSilent := (c.Source == "udp" || c.Source == "udp2" || c.Source == "roach") && e.udpStop == nil
 		var overlapStop chan struct{}
 		if udpSilent && c.FailBy == "overlap" && st0 == Inactive && e.c.Nchan >= 2 {
 			// the hardware already sends, but two groups claim the same channel number: sampling must refuse the layout
@@ -736,10 +795,10 @@ func c10Run(c c10Case) (v vVerdict) {
 		}
 	}
 	failNext = ""
-	if c.Source == "abaco" || c.Source == "udp" || c.Source == "udp2" {
+	if c.Source == "abaco" || c.Source == "udp" || c.Source == "udp2" || c.Source == "roach" {
 		reconfigure(nchan)
 	}
-	if (c.Source == "udp" || c.Source == "udp2") && e.udpStop == nil {
+	if (c.Source == "udp" || c.Source == "udp2" || c.Source == "roach") && e.udpStop == nil {
 		e.startSenders()
 	}
 	if bad := doStart(len(c.Ops) + 1); bad != nil {
@@ -772,7 +831,7 @@ func c10Run(c c10Case) (v vVerdict) {
 }
 
 func c10Gen(t *rapid.T) c10Case {
-	c := c10Case{Source: rapid.SampledFrom([]string{"scripted", "scripted", "scripted", "scripted", "triangle", "simpulse", "erroring", "abaco", "udp", "udp2", "lancero"}).Draw(t, "source"),
+	c := c10Case{Source: rapid.SampledFrom([]string{"scripted", "scripted", "scripted", "scripted", "triangle", "simpulse", "erroring", "abaco", "udp", "udp2", "lancero", "roach"}).Draw(t, "source"),
 		Nchan: rapid.IntRange(1, 4).Draw(t, "nchan")}
 	stops := func() c10Op {
 		k := rapid.SampledFrom([]int{1, 1, 2, 3, 4}).Draw(t, "k")
@@ -786,7 +845,7 @@ func c10Gen(t *rapid.T) c10Case {
 		c.FailBy = "overlap"
 	}
 	nrounds := rapid.IntRange(1, 3).Draw(t, "rounds")
-	if c.Source == "abaco" || c.Source == "udp" || c.Source == "udp2" || c.Source == "lancero" {
+	if c.Source == "abaco" || c.Source == "udp" || c.Source == "udp2" || c.Source == "lancero" || c.Source == "roach" {
 		nrounds = rapid.IntRange(1, 2).Draw(t, "rounds2")
 	}
 	for r := 0; r < nrounds; r++ {
